@@ -7,6 +7,9 @@
     Q acc rawquery name def      acc ∈ s t u ss b i i64 f ;  def = `n` (none) | `d<payload>`
     P acc kind raw name          acc ∈ s i i64 ; kind p = route /p/{v}, a = route /a/{v: **}
     C name v                     SetCookie, Set-Cookie's name=value fed back as Cookie, Cookie(name) → the value read
+    M n1 v1 n2 v2 [n3 v3 [n4 v4]]  several SetCookie calls on ONE response; all Set-Cookie lines go through the
+                                 client's cookie store (equal name: last wins) into one Cookie header;
+                                 out = Cookie(n1),Cookie(n2),… (comma-joined hex)
     K line [line2] name          one or two raw Cookie header lines, Cookie(name)
   out: hex / integers / `err` / `nomatch`; floats as IEEE bits (answered by the oracle `E PF s bits`).
 -/
@@ -95,6 +98,14 @@ def runOp (o : Oracle) : List String → String
     let hdr := setCookieHeader (hexOf name) (hexOf v)
     let back := clientEcho hdr                 -- the client returns only `name=value`
     (cookie [back] (hexOf name)).toHex
+  | "M" :: rest =>
+    let rec pairs : List String → List (Bytes × Bytes)
+      | n :: v :: more => (hexOf n, hexOf v) :: pairs more
+      | _ => []
+    let ws := pairs rest
+    if ws.isEmpty || rest.length % 2 != 0 then "bad-op" else
+    let hdr := clientCookieHeader (setCookies ws)
+    joinWith "," (ws.map fun w => (cookie [hdr] w.1).toHex)
   | ["K", line, name] => (cookie [hexOf line] (hexOf name)).toHex
   | ["K", l1, l2, name] => (cookie [hexOf l1, hexOf l2] (hexOf name)).toHex
   | _ => "bad-op"
